@@ -55,6 +55,13 @@ def handleC09 : List String → Verdict
         tags := [origin, "prt", if rows.all (·.1 == 2) then "outside-fragment" else if rows.all (·.1 != 2) then "all-in-fragment" else "some-in-fragment"],
         sig := "prt" }
     | _, _, _ => .badOp
+  | ["inplace2", _srcH, firstH, secondH] =>
+    match hexField firstH, hexField secondH with
+    | some first, some second =>
+      { predfail := if first == second then none else
+          some s!"`templ fmt <file>` run a second time on the same file changed it again: {first.length} bytes after the first run, {second.length} after the second",
+        nontrivial := true, tags := ["inplace-twice"], sig := "inplace2" }
+    | _, _ => .badOp
   | ["inplace", wantH, gotH] =>
     match hexField wantH, hexField gotH with
     | some want, some got =>
@@ -113,6 +120,13 @@ def changeKind (g0 g1 : Bytes) : String :=
   else "other"
 
 def handleC08 : List String → Verdict
+  | ["fmtimports", _srcH, _firstH, missingH] =>
+    match (if missingH == "-" then some [] else hexField missingH) with
+    | some missing =>
+      { predfail := if missing.isEmpty then none else
+          some s!"after `templ fmt <file>` the template's code no longer has an import it uses: {String.ofList (missing.map fun c => Char.ofNat c.toNat)}",
+        nontrivial := true, tags := ["imports-kept"], sig := "fmtimports" }
+    | none => .badOp
   | ["gen", origin, _srcH, f1S, g0H, g1S] =>
     if f1S == "ERR" then { predfail := some "accepted template could not be formatted", nontrivial := true, tags := [origin], sig := "gen;format-error" }
     else if g1S.startsWith "ERR" then { predfail := some s!"formatted template is not accepted by parse + generate + gofmt: {g1S}", nontrivial := true, tags := [origin], sig := "gen;formatted-rejected" }
